@@ -172,7 +172,10 @@ pub fn run(cfg: &Cfg) {
     // ---- lstrip on its own
     for _ in 0..(if cfg.thorough { 20_000 } else { 2_000 }) {
         let parts = ["a", "a/", "a/b", "a/b/", "ab", "", "/", "x/", "a/b/c", "./", "a//"];
-        let path: String = format!("{}{}", r.pick(&parts), r.pick(&["c.txt", "", "b/c", "/c"]));
+        // one to three parts in a row, so that a prefix can occur repeatedly at the front of a path
+        // (`a/a/b/c.txt`, `aab/c`), then a file name
+        let lead: String = (0..1 + r.below(3)).map(|_| *r.pick(&parts)).collect();
+        let path: String = format!("{}{}", lead, r.pick(&["c.txt", "", "b/c", "/c", "a", "ab"]));
         let strips: Option<Vec<&str>> = if r.chance(1, 6) { None } else { Some((0..r.below(4)).map(|_| *r.pick(&parts)).collect()) };
         let tmp = tempfile::Builder::new().prefix("itv-ls-").tempdir().unwrap();
         // record_artifact needs a real file; exercise the private function through it
@@ -202,6 +205,12 @@ pub fn run(cfg: &Cfg) {
             Some(v) if v.is_empty() => "=".to_string(),
             Some(v) => v.iter().map(|x| hexs(x)).collect::<Vec<_>>().join(","),
         };
+        // the statement itself: the key is the path with the longest matching strip-prefix removed (once)
+        if ans != "panic" && ans != "err" {
+            let longest = strips.as_ref().and_then(|v| v.iter().filter(|p| rel.starts_with(**p)).max_by_key(|p| p.len()).copied()).unwrap_or("");
+            let want = &rel[longest.len()..];
+            sink.oracle(ans == hexs(want), "the recorded key is not the path with the longest matching strip-prefix removed", &format!("lstrip {} {}", hexs(rel), st));
+        }
         sink.op(&format!("lstrip {} {}", hexs(rel), st), &ans, strips.as_ref().map(|v| !v.is_empty()).unwrap_or(false));
         sink.stat("lstrip");
     }
